@@ -249,6 +249,9 @@ for _len in range(9):
         domain="all 64^%d code vectors of length %d; mechanically extracted String statement of aircraft_identification_read" % (_len, _len),
         functions=["aircraft_identification_read (slice: table mapping)"], timeout=900, tier="quick" if _len in (0, 1, 7, 8) else "thorough")
 
+add("leaf_icao_text", "adsb_deku", L + "obl_icao_text", props=["C04", "C01"], unwind=10, stubs=[],
+    domain="all 2^24 addresses (FromStr half; Display natively)", functions=["<ICAO as FromStr>::from_str"], timeout=900)
+
 
 def select(prop, tier):
     out = []
